@@ -5,6 +5,7 @@
 // stdin: one call per line   <function> key=value ...
 //   keys: p_obj_index p_nobj_header p_index p_value v_multiobj v_objno f_objno_ f_multiobj_
 //         f_opts_read_ f_obj_added_ p_h_num_objs
+//        or  sort_terms <var> <coef> ...   (the real mp::LinTerms::sort_terms on integer-valued terms; prints v:c,v:c,..)
 // stdout: `ret <int>` | `throw` | `bad-call`
 // Compiled with -fno-access-control (private fields of BasicSolver are set directly) and -DNDEBUG.
 #include <cstdio>
@@ -16,6 +17,7 @@
 #include "mp/nl-reader.h"
 #include "mp/problem.h"
 #include "mp/solver-io.h"
+#include "mp/flat/expr_affine.h"
 
 namespace {
 typedef mp::internal::NLProblemBuilder<mp::Problem> NLPB;
@@ -43,6 +45,19 @@ int main() {
     std::istringstream is(line);
     std::string fn, kv;
     is >> fn;
+    if (fn == "sort_terms") {          // sort_terms <var> <coef> ... : the real mp::LinTerms::sort_terms()
+      mp::LinTerms lt;
+      long long v, c;
+      while (is >> v >> c) lt.add_term((double)c, (int)v);
+      lt.sort_terms();
+      std::string out;
+      for (size_t i = 0; i < lt.size(); ++i) {
+        if (i) out += ",";
+        out += std::to_string(lt.var(i)) + ":" + std::to_string((long long)lt.coef(i));
+      }
+      std::puts(out.c_str());
+      continue;
+    }
     Args a;
     while (is >> kv) {
       size_t e = kv.find('=');
